@@ -221,7 +221,11 @@ def check_split_tensor(case, rec):
     distr = case['distr']
     tol = float(case['tolx'])
     A0 = A.copy()
-    B0, B1, qb = ptn.split_mps_tensor(A, qd0, qd1, [ql, qr], distr, tol)
+    if tol == 0 and case['seed'] % 2:
+        B0, B1, qb = ptn.split_mps_tensor(A, qd0, qd1, [ql, qr], distr)    # tol = 0 is the documented default
+        rec.label('default_tol_argument')
+    else:
+        B0, B1, qb = ptn.split_mps_tensor(A, qd0, qd1, [ql, qr], distr, tol)
     require(A.tobytes() == A0.tobytes() and A.shape == A0.shape, 'split_mps_tensor modified its input tensor')
     qb = np.asarray(qb)
     k = len(qb)
